@@ -189,6 +189,8 @@ fn update_res_cases(r: &mut Rng, n: usize, sink: &mut Sink) {
         base_tags.push(format!("seq:{}", ["forward", "forward", "backward", "forward_with_regression"][mode]));
         if finish { path.finish(); base_tags.push("path:finished(sentinel)".into()); }
         let mut regressed = false;
+        // last position the implementation accepted (its index caches stand there)
+        let mut x_acc: Option<f64> = None;
         if mode == 2 { x = path.offset_end().value; }
         for s in 0..nsteps {
             if made >= n { break; }
@@ -208,9 +210,14 @@ fn update_res_cases(r: &mut Rng, n: usize, sink: &mut Sink) {
             }
             let v = if r.chance(0.2) { 0.0 } else { r.range(0.0, 25.0) };
             st.offset = uc::M * x; st.speed = uc::MPS * v;
+            // a position behind (Fwd) / ahead of (Bwd) the last accepted one violates the direction hypothesis
+            // (it happens here after an out-of-range probe beyond a sentinel was accepted and x is clamped back)
+            if let Some(xa) = x_acc { if (matches!(dir, Dir::Fwd) && x < xa) || (matches!(dir, Dir::Bwd) && x > xa) { regressed = true; } }
             let pre = st; let pre_cache = res_cache(&tr);
             let res = catch(std::panic::AssertUnwindSafe(|| tr.update_res(&mut st, &path, &dir)));
+            if matches!(res, Ok(Ok(()))) { x_acc = Some(x); }
             let mut tags = base_tags.clone();
+            if regressed { tags.push("seq:direction_hypothesis_violated".into()); }
             tags.push(format!("dir:{}", coq_dir(&dir)));
             let in_dom = !regressed && x >= tl && x <= path.offset_end().value;
             let mut fails = vec![];
